@@ -1,11 +1,11 @@
 package props
 
 import (
-	"runtime"
 	"errors"
 	"fmt"
 	"math/rand"
 	"net"
+	"runtime"
 	"sync"
 	"testing"
 	"time"
